@@ -8,6 +8,7 @@ import FcGen.KSrcIdx
 import FcProps.KTieIdx
 import Fc.Engine
 import Fc.Families
+import FcLemmas.KTieLoopCore
 
 set_option linter.unusedSimpArgs false
 set_option linter.unusedVariables false
@@ -47,51 +48,6 @@ theorem iter_collect (ix : Idx.Indexer) (hn : 0 < ix.roleMax) :
     simpa [Idx.Indexer.fuel, List.range_eq_range'] using hd
 
 /-! ### sequencing -/
-
-theorem bind_spec {α γ : Type} (x : Option α) (k : α → Option γ) (R : α → Prop) (Q : γ → Prop)
-    (hx : ∃ a, x = some a ∧ R a) (hk : ∀ a, R a → ∃ y, k a = some y ∧ Q y) :
-    ∃ y, x.bind k = some y ∧ Q y := by
-  obtain ⟨a, ha, hR⟩ := hx
-  subst ha
-  exact hk a hR
-
-/-! ### the loop -/
-
-/-- what the loop establishes: it ran through (`none`) and the model's scan did too, with the loop invariant;
-    or an iteration returned `v` and the model's scan left with `out v`, with the exit relation -/
-def LoopPost {σ β : Type} (P : Policy Fix) (out : β → Outcome) (Inv : σ → Eng Fix → Prop)
-    (Fin : β → σ → Eng Fix → Prop) (l : List Nat) (e : Eng Fix) (a : σ × Option β) : Prop :=
-  (a.2 = none ∧ (Eng.scan P l e).2 = none ∧ Inv a.1 (Eng.scan P l e).1) ∨
-  (∃ v, a.2 = some v ∧ (Eng.scan P l e).2 = some (out v) ∧ Fin v a.1 (Eng.scan P l e).1)
-
-/-- one iteration refines one `visit` -/
-def StepOk {σ β : Type} (P : Policy Fix) (out : β → Outcome) (Inv : σ → Eng Fix → Prop)
-    (Fin : β → σ → Eng Fix → Prop) (M : Nat → Prop) (f : σ → Nat → Option (σ × Ctl β)) : Prop :=
-  ∀ s e i, M i → Inv s e → ∃ s' c, f s i = some (s', c) ∧
-    ((c = .next ∧ (Eng.visit P e i).2 = none ∧ Inv s' (Eng.visit P e i).1) ∨
-     (∃ v, c = .ret v ∧ (Eng.visit P e i).2 = some (out v) ∧ Fin v s' (Eng.visit P e i).1))
-
-theorem forCtl_scan {σ β : Type} (P : Policy Fix) (out : β → Outcome) (Inv : σ → Eng Fix → Prop)
-    (Fin : β → σ → Eng Fix → Prop) (M : Nat → Prop) (f : σ → Nat → Option (σ × Ctl β))
-    (hstep : StepOk P out Inv Fin M f) (l : List Nat) (hl : ∀ i ∈ l, M i) (s : σ) (e : Eng Fix) (h : Inv s e) :
-    ∃ a, Rs.forCtl l s f = some a ∧ LoopPost P out Inv Fin l e a := by
-  induction l generalizing s e with
-  | nil => exact ⟨(s, none), rfl, Or.inl ⟨rfl, rfl, h⟩⟩
-  | cons i rest ih =>
-    obtain ⟨s', c, hf, hc⟩ := hstep s e i (hl i List.mem_cons_self) h
-    rcases hc with ⟨hc, hv, hinv⟩ | ⟨v, hc, hv, hfin⟩
-    · subst hc
-      obtain ⟨a, ha, hpost⟩ := ih (fun j hj => hl j (List.mem_cons_of_mem _ hj)) s' _ hinv
-      refine ⟨a, ?_, ?_⟩
-      · simp only [Rs.forCtl, hf]; exact ha
-      · unfold LoopPost at hpost ⊢
-        simp only [Eng.scan, hv]
-        exact hpost
-    · subst hc
-      refine ⟨(s', some v), ?_, Or.inr ⟨v, rfl, ?_, ?_⟩⟩
-      · simp only [Rs.forCtl, hf]
-      · simp only [Eng.scan, hv]
-      · simp only [Eng.scan, hv]; exact hfin
 
 end TieLoop
 
